@@ -830,8 +830,6 @@ Proof.
   intros Hsub. apply filter_len_le. intros x _ Hx. apply negb_true_iff in Hx. apply negb_true_iff.
   apply nset_mem_false. apply nset_mem_false in Hx. intros H. apply Hx. exact (Hsub x H). 
 Qed.
-Lemma missing_mono_back v v' : (forall k, In k v -> In k v') -> (missing v' <= missing v)%nat.
-Proof. exact (missing_mono v v'). Qed.
 
 Lemma missing_insert k v : In k U -> ~ In k v -> (missing (nset_insert k v) < missing v)%nat.
 Proof.
@@ -911,6 +909,896 @@ Lemma rec_gen_fuel_enough fuel :
   (List.length U < fuel)%nat -> rec_gen w vkey fuel root ([], []) <> Err EFuel.
 Proof.
   intros H. apply rec_gen_fuel; [apply Reach_root|].
-  unfold missing. pose proof (filter_len_all (fun k => negb (nset_mem k (snd (@nil target, @nil N)))) U). lia.
+  unfold missing. apply Nat.le_lt_trans with (List.length U); [apply filter_len_all|exact H].
 Qed.
 End AllRec.
+
+(* ---------------- the answer does not depend on the amount of fuel ---------------- *)
+Section FuelMono.
+Variable w : world.
+Variable vkey : pkgname -> path -> N.
+
+Definition recf_le (r1 r2 : path -> tset * nset -> res (tset * nset)) : Prop :=
+  forall mp st r, r1 mp st = r -> r <> Err EFuel -> r2 mp st = r.
+
+Lemma deps_loop_le r1 r2 md : recf_le r1 r2 ->
+  forall ds st r, deps_loop w vkey r1 md ds st = r -> r <> Err EFuel -> deps_loop w vkey r2 md ds st = r.
+Proof.
+  intros Hle. induction ds as [|d ds IH]; intros st r Hrun Hne; cbn [deps_loop] in *; [exact Hrun|].
+  destruct (d_path d) as [dir|]; [|apply IH; assumption].
+  destruct (nset_mem (vkey (d_name d) (w_toml_in w dir)) (snd st)); [apply IH; assumption|].
+  destruct (w_exists w (w_toml_in w dir)
+            && negb (existsb (fun p0 => p_manifest p0 =? w_toml_in w dir) (packages md)));
+    [|apply IH; assumption].
+  destruct (r1 (w_toml_in w dir) (fst st, nset_insert (vkey (d_name d) (w_toml_in w dir)) (snd st)))
+    as [st1|e] eqn:E1.
+  - rewrite (Hle _ _ _ E1); [|discriminate]. apply IH; assumption.
+  - rewrite (Hle _ _ _ E1); [exact Hrun|]. rewrite Hrun. exact Hne.
+Qed.
+
+Lemma pkgs_loop_le r1 r2 md : recf_le r1 r2 ->
+  forall ps st r, pkgs_loop w vkey r1 md ps st = r -> r <> Err EFuel -> pkgs_loop w vkey r2 md ps st = r.
+Proof.
+  intros Hle. induction ps as [|p ps IH]; intros st r Hrun Hne; cbn [pkgs_loop] in *; [exact Hrun|].
+  destruct (deps_loop w vkey r1 md (p_deps p) (add_targets w (p_targets p) (fst st), snd st)) as [st1|e] eqn:E1.
+  - rewrite (deps_loop_le r1 r2 md Hle _ _ _ E1); [|discriminate]. apply IH; assumption.
+  - rewrite (deps_loop_le r1 r2 md Hle _ _ _ E1); [exact Hrun|]. rewrite Hrun. exact Hne.
+Qed.
+
+Lemma rec_gen_S : forall f m st r,
+  rec_gen w vkey f m st = r -> r <> Err EFuel -> rec_gen w vkey (S f) m st = r.
+Proof.
+  induction f as [|f IH]; intros m st r Hrun Hne.
+  - cbn [rec_gen] in Hrun. congruence.
+  - cbn [rec_gen] in Hrun. change (rec_gen w vkey (S (S f)) m st) with
+      (match w_meta w m with
+       | None => Err EMetadata
+       | Some md => pkgs_loop w vkey (fun mp => rec_gen w vkey (S f) (Some mp)) md (packages md) st
+       end).
+    destruct (w_meta w m) as [md|]; [|exact Hrun].
+    apply (pkgs_loop_le (fun mp => rec_gen w vkey f (Some mp))); [|exact Hrun|exact Hne].
+    intros mp st0 r0 H0 Hne0. exact (IH _ _ _ H0 Hne0).
+Qed.
+
+Lemma rec_gen_more_fuel f k m st r :
+  rec_gen w vkey f m st = r -> r <> Err EFuel -> rec_gen w vkey (k + f) m st = r.
+Proof.
+  intros Hrun Hne. induction k as [|k IH]; [exact Hrun|]. cbn [Nat.add]. apply rec_gen_S; assumption.
+Qed.
+End FuelMono.
+
+(* ================================================================== *)
+(* 5. get_targets: the three strategies *)
+Lemma vkey_all_cases : vkey_all = vkey_name \/ vkey_all = vkey_path.
+Proof. first [left; reflexivity|right; reflexivity]. Qed.
+
+Lemma name_dec (ps : list pkg) (n : pkgname) :
+  (exists p, In p ps /\ p_name p = n) \/ (forall p, In p ps -> p_name p <> n).
+Proof.
+  induction ps as [|a ps IH].
+  - right. intros p [].
+  - destruct (N.eq_dec (p_name a) n) as [E|E].
+    + left. exists a. split; [left; reflexivity|exact E].
+    + destruct IH as [(p & Hp & Hn)|Hall].
+      * left. exists p. split; [right; exact Hp|exact Hn].
+      * right. intros p [<-|Hp]; [exact E|apply Hall; exact Hp].
+Qed.
+
+Section Top.
+Variable w : world.
+Variable rec_all : nat -> option path -> tset * nset -> res (tset * nset).
+
+Lemma targets_root_lemma fuel marg s :
+  get_targets_gen w rec_all fuel SRoot marg = Ok s ->
+  exists md, w_meta w marg = Some md /\ selects w (root_selected w marg md) s /\
+             s = add_targets w (flat_map p_targets (root_packages w marg md)) [].
+Proof.
+  intros H. apply get_targets_gen_ok in H. destruct H as [_ H].
+  destruct (root_ok_meta _ _ _ _ H) as (md & Hm). exists md. split; [exact Hm|].
+  rewrite (root_only_eq w marg md [] Hm) in H. inversion H as [Hs]. split; [|reflexivity].
+  apply selects_of_list. intros p. symmetry. apply root_packages_iff.
+Qed.
+
+Lemma targets_some_lemma fuel hl marg s :
+  get_targets_gen w rec_all fuel (SSome hl) marg = Ok s ->
+  exists md, w_meta w marg = Some md /\ selects w (some_selected hl md) s /\
+             (forall n, In n hl -> exists p, In p (packages md) /\ p_name p = n) /\
+             s = add_targets w (flat_map p_targets
+                   (hit_list (packages md) (fold_left (fun h n => nset_insert n h) hl []))) [].
+Proof.
+  intros H. apply get_targets_gen_ok in H. destruct H as [_ H].
+  destruct (w_meta w marg) as [md|] eqn:Hm; [|unfold get_targets_with_hitlist in H; rewrite Hm in H; discriminate].
+  exists md. split; [reflexivity|].
+  destruct (hitlist_from_list_sorted hl) as [Hsorted Hin].
+  destruct (with_hitlist_cases w marg hl [] md Hm) as [[Hrem Heq]|(n & r & Hrem & Heq)];
+    [|rewrite Heq in H; discriminate].
+  rewrite Heq in H. inversion H as [Hs]. clear H.
+  destruct (remaining_spec (packages md) _ Hsorted) as [_ Hrs]. rewrite Hrem in Hrs.
+  split; [|split; [|reflexivity]].
+  - apply selects_of_list. intros p. rewrite (hit_list_spec (packages md) _ p Hsorted), Hin. reflexivity.
+  - intros n Hn. destruct (name_dec (packages md) n) as [Hex|Hall]; [exact Hex|].
+    exfalso. apply (proj2 (Hrs n)). split; [apply Hin; exact Hn|exact Hall].
+Qed.
+
+Lemma unknown_package_lemma fuel hl marg md n :
+  w_meta w marg = Some md -> In n hl -> (forall p, In p (packages md) -> p_name p <> n) ->
+  exists n', get_targets_gen w rec_all fuel (SSome hl) marg = Err (ENotMember n') /\
+             In n' hl /\ (forall p, In p (packages md) -> p_name p <> n') /\ n' <= n.
+Proof.
+  intros Hm Hn Hun.
+  destruct (hitlist_from_list_sorted hl) as [Hsorted Hin].
+  destruct (remaining_spec (packages md) _ Hsorted) as [Hrsorted Hrs].
+  assert (Hnr : In n (remaining (packages md) (fold_left (fun h n0 => nset_insert n0 h) hl []))).
+  { apply Hrs. split; [apply Hin; exact Hn|exact Hun]. }
+  destruct (with_hitlist_cases w marg hl [] md Hm) as [[Hrem Heq]|(n' & r & Hrem & Heq)].
+  - rewrite Hrem in Hnr. destruct Hnr.
+  - exists n'. split; [apply get_targets_gen_err; exact Heq|].
+    rewrite Hrem in Hrs, Hnr, Hrsorted.
+    destruct (proj1 (Hrs n') (or_introl eq_refl)) as [H1 H2].
+    split; [apply Hin; exact H1|]. split; [exact H2|].
+    inversion Hrsorted as [|? ? _ Hall]; subst. rewrite Forall_forall in Hall.
+    destruct Hnr as [->|Hnr]; [lia|]. specialize (Hall n Hnr). lia.
+Qed.
+
+Lemma get_targets_gen_sorted_rs fuel st marg s :
+  (st = SAll -> forall v, rec_all fuel marg ([], []) = Ok (s, v) -> tsorted s) ->
+  get_targets_gen w rec_all fuel st marg = Ok s -> tsorted s.
+Proof.
+  intros Hall H. destruct st as [|hl|].
+  - apply get_targets_gen_ok in H. destruct H as [_ (v & H)]. exact (Hall eq_refl v H).
+  - destruct (targets_some_lemma _ _ _ _ H) as (md & _ & _ & _ & ->). apply add_targets_sorted. apply tsorted_nil.
+  - destruct (targets_root_lemma _ _ _ H) as (md & _ & _ & ->). apply add_targets_sorted. apply tsorted_nil.
+Qed.
+
+Lemma get_targets_gen_fuel_err fuel st marg :
+  get_targets_gen w rec_all fuel st marg = Err EFuel -> st = SAll /\ rec_all fuel marg ([], []) = Err EFuel.
+Proof.
+  unfold get_targets_gen. destruct st as [|hl|].
+  - destruct (rec_all fuel marg ([], [])) as [[s0 v0]|e]; cbn [fst].
+    + destruct s0; discriminate.
+    + intros H. inversion H; subst. split; reflexivity.
+  - unfold get_targets_with_hitlist. destruct (w_meta w marg) as [md|]; [|discriminate].
+    destruct (hitlist_loop w (packages md) (fold_left (fun h n => nset_insert n h) hl []) []) as [[|n r] s'].
+    + destruct s'; discriminate.
+    + discriminate.
+  - unfold get_targets_root_only. destruct (w_meta w marg) as [md|]; [|discriminate].
+    destruct marg as [m|];
+      match goal with |- context [Ok ?x] => destruct x; discriminate end.
+Qed.
+End Top.
+
+Section TopAll.
+Variable w : world.
+
+Lemma targets_all_sound_lemma vkey fuel marg s :
+  get_targets_gen w (rec_gen w vkey) fuel SAll marg = Ok s ->
+  forall t, In t s -> exists p st, all_selected w marg p /\ In st (p_targets p) /\ t = from_target w st.
+Proof.
+  intros H. apply get_targets_gen_ok in H. destruct H as [_ (v & H)].
+  exact (proj2 (rec_gen_sound w marg vkey fuel s v H)).
+Qed.
+
+Lemma targets_all_lemma vkey fuel marg s :
+  key_inj w marg vkey ->
+  get_targets_gen w (rec_gen w vkey) fuel SAll marg = Ok s -> selects w (all_selected w marg) s.
+Proof.
+  intros Hinj H. split; [exact (targets_all_sound_lemma vkey fuel marg s H)|].
+  apply get_targets_gen_ok in H. destruct H as [_ (v & H)].
+  exact (rec_gen_complete w marg vkey fuel s v Hinj H).
+Qed.
+
+Lemma key_inj_name marg : distinct_dep_names w marg -> key_inj w marg vkey_name.
+Proof.
+  intros Hd m1 n1 mp1 m2 n2 mp2 Hr1 He1 Hr2 He2 Hk. unfold vkey_name in Hk. subst n2.
+  exact (Hd m1 m2 n1 mp1 mp2 Hr1 He1 Hr2 He2).
+Qed.
+Lemma key_inj_path marg : key_inj w marg vkey_path.
+Proof. intros m1 n1 mp1 m2 n2 mp2 _ _ _ _ Hk. exact Hk. Qed.
+
+Lemma targets_spec_all_lemma fuel marg s :
+  distinct_dep_names w marg -> get_targets w fuel SAll marg = Ok s -> selects w (all_selected w marg) s.
+Proof.
+  intros Hd. unfold get_targets, get_targets_all.
+  destruct vkey_all_cases as [E|E]; rewrite E; apply targets_all_lemma;
+    [apply key_inj_name; exact Hd|apply key_inj_path].
+Qed.
+
+Lemma targets_all_sound fuel marg s :
+  get_targets w fuel SAll marg = Ok s ->
+  forall t, In t s -> exists p st, all_selected w marg p /\ In st (p_targets p) /\ t = from_target w st.
+Proof. unfold get_targets, get_targets_all. apply targets_all_sound_lemma. Qed.
+
+Lemma fixed_targets_spec_all_lemma fuel marg s :
+  get_targets_fixed w fuel SAll marg = Ok s -> selects w (all_selected w marg) s.
+Proof. unfold get_targets_fixed, get_targets_recursive_fixed. apply targets_all_lemma. apply key_inj_path. Qed.
+
+Lemma sorted_gen vkey fuel st marg s :
+  get_targets_gen w (rec_gen w vkey) fuel st marg = Ok s -> tsorted s.
+Proof.
+  apply get_targets_gen_sorted_rs. intros _ v H. exact (proj1 (rec_gen_sound w marg vkey fuel s v H)).
+Qed.
+
+Lemma each_path_once_lemma fuel st marg s :
+  get_targets w fuel st marg = Ok s -> NoDup (map t_path s) /\ StronglySorted N.lt (map t_path s).
+Proof.
+  intros H. apply sorted_gen in H. apply ksorted_keys in H. split; [apply sorted_lt_NoDup; exact H|exact H].
+Qed.
+
+Lemma fuel_enough_lemma (U : list N) fuel st marg :
+  (forall m n mp, Reach w marg m -> Edge w m n mp -> In (vkey_all n mp) U) ->
+  (List.length U < fuel)%nat -> get_targets w fuel st marg <> Err EFuel.
+Proof.
+  intros HU Hlen H. apply get_targets_gen_fuel_err in H. destruct H as [_ H].
+  exact (rec_gen_fuel_enough w marg vkey_all U HU fuel Hlen H).
+Qed.
+
+Lemma fuel_irrelevant_lemma fuel k st marg r :
+  get_targets w fuel st marg = r -> r <> Err EFuel -> get_targets w (k + fuel) st marg = r.
+Proof.
+  unfold get_targets, get_targets_gen, get_targets_all. destruct st as [|hl|]; try (intros H _; exact H).
+  destruct (rec_gen w vkey_all fuel marg ([], [])) as [x|e] eqn:E; intros H Hne.
+  - rewrite (rec_gen_more_fuel w vkey_all fuel k marg _ _ E); [exact H|discriminate].
+  - rewrite (rec_gen_more_fuel w vkey_all fuel k marg _ _ E); [exact H|].
+    rewrite <- H in Hne. intros Heq. apply Hne. inversion Heq. reflexivity.
+Qed.
+
+Lemma metadata_failure_lemma fuel st marg :
+  w_meta w marg = None -> (0 < fuel)%nat -> get_targets w fuel st marg = Err EMetadata.
+Proof.
+  intros Hm Hf. apply get_targets_gen_err. destruct st as [|hl|].
+  - unfold get_targets_all. destruct fuel as [|f]; [lia|]. cbn [rec_gen]. rewrite Hm. reflexivity.
+  - unfold get_targets_with_hitlist. rewrite Hm. reflexivity.
+  - apply root_metadata_err. exact Hm.
+Qed.
+End TopAll.
+
+(* ================================================================== *)
+(* 6. by_edition: the BTreeMap from editions to file lists *)
+Definition group (e : edition) (ts : tset) : list path :=
+  map t_path (filter (fun t => t_edition t =? e) ts).
+Definition editions (ts : tset) : nset :=
+  fold_left (fun h n => nset_insert n h) (map t_edition ts) [].
+
+Lemma group_app e l1 l2 : group e (l1 ++ l2) = group e l1 ++ group e l2.
+Proof. unfold group. rewrite filter_app, map_app. reflexivity. Qed.
+
+Lemma editions_spec ts : nsorted (editions ts) /\ forall e, In e (editions ts) <-> exists t, In t ts /\ t_edition t = e.
+Proof.
+  assert (H0 : nsorted []) by constructor.
+  destruct (nset_from_list_spec (map t_edition ts) [] H0) as [H1 H2]. split; [exact H1|].
+  intros e. unfold editions. rewrite H2, in_map_iff. cbn [In].
+  split.
+  - intros [(t & Ht & Hin)|[]]. exists t. split; assumption.
+  - intros (t & Hin & Ht). left. exists t. split; assumption.
+Qed.
+
+Lemma editions_snoc ts t : editions (ts ++ [t]) = nset_insert (t_edition t) (editions ts).
+Proof. unfold editions. rewrite map_app, fold_left_app. reflexivity. Qed.
+
+Lemma bm_push_map (e0 : edition) (p : path) (g : edition -> list path) :
+  forall es, nsorted es -> (~ In e0 es -> g e0 = []) ->
+  bm_push e0 p (map (fun e => (e, g e)) es)
+  = map (fun e => (e, g e ++ (if e0 =? e then [p] else []))) (nset_insert e0 es).
+Proof.
+  unfold nset_insert.
+  induction es as [|u es IH]; intros Hs Hg; cbn [map bm_push kinsert].
+  - rewrite N.eqb_refl, (Hg (fun H => H)). reflexivity.
+  - inversion Hs as [|? ? Hs' Hall]; subst. rewrite Forall_forall in Hall.
+    assert (Hext : ~ In e0 es ->
+                   map (fun e => (e, g e ++ (if e0 =? e then [p] else []))) es = map (fun e => (e, g e)) es).
+    { intros Hn. apply map_ext_in. intros a Ha. destruct (e0 =? a) eqn:E.
+      - apply N.eqb_eq in E. subst a. contradiction.
+      - rewrite app_nil_r. reflexivity. }
+    destruct (e0 <? u) eqn:E1.
+    + apply N.ltb_lt in E1.
+      assert (Hn : ~ In e0 (u :: es)).
+      { intros [H|H]; [lia|]. specialize (Hall _ H). lia. }
+      cbn [map]. rewrite N.eqb_refl, (Hg Hn). cbn [app].
+      assert (E : e0 =? u = false) by (apply N.eqb_neq; lia). rewrite E, app_nil_r.
+      rewrite Hext; [reflexivity|]. intros H. apply Hn. right. exact H.
+    + destruct (e0 =? u) eqn:E2.
+      * apply N.eqb_eq in E2. subst u. cbn [map]. rewrite N.eqb_refl.
+        rewrite Hext; [reflexivity|]. intros H. specialize (Hall _ H). lia.
+      * cbn [map]. rewrite E2, app_nil_r. f_equal. apply IH; [exact Hs'|].
+        intros Hn. apply Hg. intros [H|H]; [apply N.eqb_neq in E2; congruence|exact (Hn H)].
+Qed.
+
+Lemma by_edition_snoc ts t : by_edition (ts ++ [t]) = bm_push (t_edition t) (t_path t) (by_edition ts).
+Proof. unfold by_edition. rewrite fold_left_app. reflexivity. Qed.
+
+Lemma by_edition_eq : forall ts, by_edition ts = map (fun e => (e, group e ts)) (editions ts).
+Proof.
+  induction ts as [|t ts IH] using rev_ind; [reflexivity|].
+  rewrite by_edition_snoc, IH, editions_snoc.
+  destruct (editions_spec ts) as [Hs Hin].
+  rewrite (bm_push_map (t_edition t) (t_path t) (fun e => group e ts) (editions ts) Hs).
+  - apply map_ext. intros e. rewrite group_app. unfold group at 3. cbn [filter].
+    destruct (t_edition t =? e); reflexivity.
+  - intros Hn. unfold group. destruct (filter (fun t0 => t_edition t0 =? t_edition t) ts) as [|t' l] eqn:Ef; [reflexivity|].
+    exfalso. apply Hn. apply Hin. exists t'.
+    assert (Ht' : In t' (filter (fun t0 => t_edition t0 =? t_edition t) ts)) by (rewrite Ef; left; reflexivity).
+    apply filter_In in Ht'. destruct Ht' as [H1 H2]. apply N.eqb_eq in H2. split; assumption.
+Qed.
+
+Lemma by_edition_fst ts : map fst (by_edition ts) = editions ts.
+Proof. rewrite by_edition_eq, map_map. cbn [fst]. apply map_id. Qed.
+
+Lemma by_edition_spec_lemma ts :
+  StronglySorted N.lt (map fst (by_edition ts)) /\
+  (forall e, In e (map fst (by_edition ts)) <-> exists t, In t ts /\ t_edition t = e) /\
+  (forall e fs, In (e, fs) (by_edition ts) -> fs = group e ts).
+Proof.
+  rewrite by_edition_fst. destruct (editions_spec ts) as [H1 H2]. split; [exact H1|]. split; [exact H2|].
+  intros e fs H. rewrite by_edition_eq in H. apply in_map_iff in H. destruct H as (e' & Heq & _).
+  inversion Heq; subst. reflexivity.
+Qed.
+
+Lemma bm_push_len e p m :
+  List.length (concat (map snd (bm_push e p m))) = S (List.length (concat (map snd m))).
+Proof.
+  induction m as [|[e' fs] m IH]; cbn [bm_push map snd concat]; [reflexivity|].
+  destruct (e <? e'); [reflexivity|]. destruct (e =? e'); cbn [map snd concat].
+  - rewrite !app_length. cbn [List.length]. lia.
+  - rewrite !app_length, IH. lia.
+Qed.
+
+Lemma by_edition_len : forall ts, List.length (concat (map snd (by_edition ts))) = List.length ts.
+Proof.
+  induction ts as [|t ts IH] using rev_ind; [reflexivity|].
+  rewrite by_edition_snoc, bm_push_len, IH, app_length. cbn [List.length]. lia.
+Qed.
+
+Lemma by_edition_files ts p :
+  In p (concat (map snd (by_edition ts))) <-> In p (map t_path ts).
+Proof.
+  rewrite by_edition_eq, map_map. cbn [snd]. rewrite in_concat. split.
+  - intros (fs & Hfs & Hp). apply in_map_iff in Hfs. destruct Hfs as (e & <- & _).
+    unfold group in Hp. apply in_map_iff in Hp. destruct Hp as (t & <- & Ht).
+    apply filter_In in Ht. apply in_map. exact (proj1 Ht).
+  - intros Hp. apply in_map_iff in Hp. destruct Hp as (t & <- & Ht).
+    exists (group (t_edition t) ts). split.
+    + apply in_map_iff. exists (t_edition t). split; [reflexivity|].
+      apply (proj2 (editions_spec ts)). exists t. split; [exact Ht|reflexivity].
+    + unfold group. apply in_map. apply filter_In. split; [exact Ht|apply N.eqb_refl].
+Qed.
+
+Lemma files_once_lemma ts :
+  NoDup (map t_path ts) ->
+  NoDup (concat (map snd (by_edition ts))) /\
+  (forall p, In p (concat (map snd (by_edition ts))) <-> In p (map t_path ts)).
+Proof.
+  intros Hnd. split; [|apply by_edition_files].
+  apply (NoDup_incl_NoDup (l := map t_path ts)); [exact Hnd| |].
+  - rewrite by_edition_len, map_length. lia.
+  - intros p Hp. apply by_edition_files. exact Hp.
+Qed.
+
+(* ================================================================== *)
+(* 7. run_rustfmt and the exit status *)
+Lemma failure_code_of_cases : failure_code_of = failure_code \/ failure_code_of = failure_code_fixed.
+Proof. first [left; reflexivity|right; reflexivity]. Qed.
+
+Section Run.
+Variable w : world.
+
+Lemma spawn_loop_spec v args : forall groups,
+  spawn_loop w v groups args
+  = (waited (map (w_child w) (map (fun g => mk_invocation v (fst g) (snd g) args) groups)),
+     upto_spawn_failure w (map (fun g => mk_invocation v (fst g) (snd g) args) groups)).
+Proof.
+  induction groups as [|[e files] gs IH]; cbn [spawn_loop map waited upto_spawn_failure fst snd]; [reflexivity|].
+  destruct (w_child w (mk_invocation v e files args)) as [c| |] eqn:E; try reflexivity; rewrite IH; reflexivity.
+Qed.
+
+Lemma run_rustfmt_eq s args v :
+  run_rustfmt w s args v
+  = (match waited (map (w_child w) (planned v s args)) with
+     | Some ss => Ok (fold_statuses failure_code_of ss)
+     | None => Err ESpawn
+     end, upto_spawn_failure w (planned v s args)).
+Proof. unfold run_rustfmt, planned. rewrite spawn_loop_spec. reflexivity. Qed.
+
+Lemma run_rustfmt_spec_lemma s args v :
+  handle_command_status (fst (run_rustfmt w s args v)) = exit_code_of (map (w_child w) (planned v s args)) /\
+  snd (run_rustfmt w s args v) = upto_spawn_failure w (planned v s args).
+Proof.
+  rewrite run_rustfmt_eq. cbn [fst snd]. split; [|reflexivity].
+  unfold exit_code_of, exit_code_gen. destruct (waited (map (w_child w) (planned v s args))); reflexivity.
+Qed.
+
+Lemma upto_all pl : (forall i, In i pl -> w_child w i <> SpawnFailed) -> upto_spawn_failure w pl = pl.
+Proof.
+  induction pl as [|i pl IH]; intros H; cbn [upto_spawn_failure]; [reflexivity|].
+  destruct (w_child w i) eqn:E; try (rewrite IH; [reflexivity|intros j Hj; apply H; right; exact Hj]).
+  exfalso. apply (H i (or_introl eq_refl)). exact E.
+Qed.
+
+Lemma upto_incl pl i : In i (upto_spawn_failure w pl) -> In i pl.
+Proof.
+  induction pl as [|j pl IH]; cbn [upto_spawn_failure]; [intros []|].
+  destruct (w_child w j); intros [H|H]; try (left; exact H); try (right; apply IH; exact H); destruct H.
+Qed.
+
+(* some child that did not succeed among the planned ones <-> among the spawned ones *)
+Lemma upto_failure pl :
+  (exists i, In i pl /\ w_child w i <> Exited 0) <->
+  (exists i, In i (upto_spawn_failure w pl) /\ w_child w i <> Exited 0).
+Proof.
+  split.
+  - induction pl as [|j pl IH]; intros (i & Hi & Hne); [destruct Hi|]. cbn [upto_spawn_failure].
+    destruct (w_child w j) eqn:E.
+    + destruct Hi as [<-|Hi]; [exists j; split; [left; reflexivity|exact Hne]|].
+      destruct (IH (ex_intro _ i (conj Hi Hne))) as (i' & Hi' & Hne'). exists i'. split; [right; exact Hi'|exact Hne'].
+    + exists j. split; [left; reflexivity|]. rewrite E. discriminate.
+    + exists j. split; [left; reflexivity|]. rewrite E. discriminate.
+  - intros (i & Hi & Hne). exists i. split; [apply upto_incl; exact Hi|exact Hne].
+Qed.
+End Run.
+
+Lemma waited_cases ss :
+  (waited ss = None /\ In SpawnFailed ss) \/ (waited ss = Some ss /\ ~ In SpawnFailed ss).
+Proof.
+  induction ss as [|s ss IH]; cbn [waited]; [right; split; [reflexivity|intros []]|].
+  destruct s as [c| |].
+  - destruct IH as [[-> Hin]|[-> Hn]]; [left; split; [reflexivity|right; exact Hin]|].
+    right. split; [reflexivity|]. intros [H|H]; [discriminate|exact (Hn H)].
+  - destruct IH as [[-> Hin]|[-> Hn]]; [left; split; [reflexivity|right; exact Hin]|].
+    right. split; [reflexivity|]. intros [H|H]; [discriminate|exact (Hn H)].
+  - left. split; [reflexivity|left; reflexivity].
+Qed.
+
+Lemma fold_statuses_nonzero (fc : status -> option Z) (l : list status) :
+  (forall s c, fc s = Some c -> c <> 0%Z) -> fc (Exited 0) = None ->
+  (forall s, In s l -> fc s = None -> s = Exited 0) ->
+  (fold_statuses fc l <> 0%Z <-> exists s, In s l /\ s <> Exited 0).
+Proof.
+  intros Hnz H0. unfold fold_statuses.
+  induction l as [|s l IH]; intros Hnone; cbn [filter_map].
+  - unfold SUCCESS. split; [intros H; congruence|intros (s & [] & _)].
+  - destruct (fc s) as [c|] eqn:E.
+    + split; [|intros _; exact (Hnz s c E)]. intros _. exists s. split; [left; reflexivity|].
+      intros ->. rewrite H0 in E. discriminate.
+    + pose proof (Hnone s (or_introl eq_refl) E) as ->.
+      rewrite (IH (fun s' Hs' => Hnone s' (or_intror Hs'))). split.
+      * intros (s' & Hs' & Hne). exists s'. split; [right; exact Hs'|exact Hne].
+      * intros (s' & [<-|Hs'] & Hne); [congruence|exists s'; split; assumption].
+Qed.
+
+Lemma exit_gen_iff (fc : status -> option Z) (ss : list status) :
+  (forall s c, fc s = Some c -> c <> 0%Z) -> fc (Exited 0) = None ->
+  (forall s, In s ss -> s <> SpawnFailed -> fc s = None -> s = Exited 0) ->
+  (exit_code_gen fc ss <> 0%Z <-> exists s, In s ss /\ s <> Exited 0).
+Proof.
+  intros Hnz H0 Hnone. unfold exit_code_gen.
+  destruct (waited_cases ss) as [[-> Hin]|[-> Hn]].
+  - unfold FAILURE. split; [|intros _; discriminate].
+    intros _. exists SpawnFailed. split; [exact Hin|discriminate].
+  - apply fold_statuses_nonzero; [exact Hnz|exact H0|].
+    intros s Hs. apply Hnone; [exact Hs|]. intros ->. exact (Hn Hs).
+Qed.
+
+Lemma failure_code_nz s c : failure_code s = Some c -> c <> 0%Z.
+Proof.
+  unfold failure_code. destruct s as [c'| |]; cbn [status_success status_code]; try discriminate.
+  destruct (Z.eqb c' 0) eqn:E; [discriminate|]. intros H. inversion H; subst. apply Z.eqb_neq. exact E.
+Qed.
+Lemma failure_code_fixed_nz s c : failure_code_fixed s = Some c -> c <> 0%Z.
+Proof.
+  unfold failure_code_fixed. destruct s as [c'| |]; cbn [status_success status_code].
+  - destruct (Z.eqb c' 0) eqn:E; [discriminate|]. intros H. inversion H; subst. apply Z.eqb_neq. exact E.
+  - intros H. inversion H. unfold FAILURE. discriminate.
+  - intros H. inversion H. unfold FAILURE. discriminate.
+Qed.
+Lemma failure_code_none s : failure_code s = None -> s = Exited 0 \/ s = Signaled \/ s = SpawnFailed.
+Proof.
+  unfold failure_code. destruct s as [c| |]; cbn [status_success status_code]; auto.
+  destruct (Z.eqb c 0) eqn:E; [|discriminate]. apply Z.eqb_eq in E. subst. auto.
+Qed.
+Lemma failure_code_fixed_none s : failure_code_fixed s = None -> s = Exited 0.
+Proof.
+  unfold failure_code_fixed. destruct s as [c| |]; cbn [status_success status_code]; try discriminate.
+  destruct (Z.eqb c 0) eqn:E; [|discriminate]. apply Z.eqb_eq in E. subst. reflexivity.
+Qed.
+
+Lemma fixed_exit_iff_lemma ss : exit_code_fixed ss <> 0%Z <-> exists s, In s ss /\ s <> Exited 0.
+Proof.
+  apply exit_gen_iff; [exact failure_code_fixed_nz|reflexivity|].
+  intros s _ _. apply failure_code_fixed_none.
+Qed.
+
+Lemma exit_iff_nosig_lemma ss : ~ In Signaled ss -> (exit_code ss <> 0%Z <-> exists s, In s ss /\ s <> Exited 0).
+Proof.
+  intros Hns. apply exit_gen_iff; [exact failure_code_nz|reflexivity|].
+  intros s Hs Hnsf Hnone. destruct (failure_code_none s Hnone) as [H|[H|H]]; [exact H|subst; contradiction|contradiction].
+Qed.
+
+Lemma exit_of_iff_nosig_lemma ss :
+  ~ In Signaled ss -> (exit_code_of ss <> 0%Z <-> exists s, In s ss /\ s <> Exited 0).
+Proof.
+  intros Hns. unfold exit_code_of. destruct failure_code_of_cases as [E|E]; rewrite E.
+  - apply exit_iff_nosig_lemma. exact Hns.
+  - apply fixed_exit_iff_lemma.
+Qed.
+
+Lemma exit_iff_refuted_lemma :
+  exists ss, ~ (exit_code ss <> 0%Z <-> exists s, In s ss /\ s <> Exited 0).
+Proof.
+  exists [Signaled]. intros [_ H]. apply H; [|reflexivity].
+  exists Signaled. split; [left; reflexivity|discriminate].
+Qed.
+
+(* ================================================================== *)
+(* 8. option translation *)
+Lemma existsb_text_In (c : text) (l : list text) : existsb (fun a => eqb_text a c) l = true <-> In c l.
+Proof.
+  rewrite existsb_exists. split.
+  - intros (x & Hx & E). apply eqb_text_spec in E. subst. exact Hx.
+  - intros H. exists c. split; [exact H|apply eqb_text_spec; reflexivity].
+Qed.
+Lemma existsb_text_notIn (c : text) (l : list text) : existsb (fun a => eqb_text a c) l = false <-> ~ In c l.
+Proof. rewrite <- existsb_text_In. destruct (existsb (fun a => eqb_text a c) l); split; congruence. Qed.
+
+Lemma eqb_text_refl t : eqb_text t t = true.
+Proof. apply eqb_text_spec. reflexivity. Qed.
+Lemma eqb_text_neq a b : a <> b -> eqb_text a b = false.
+Proof. intros H. destruct (eqb_text a b) eqn:E; [|reflexivity]. apply eqb_text_spec in E. contradiction. Qed.
+
+Lemma check_flag_lemma (a : list text) :
+  translate_check false a = a /\
+  (In (txt "--check") a -> translate_check true a = a) /\
+  (~ In (txt "--check") a -> translate_check true a = a ++ [txt "--check"]).
+Proof.
+  unfold translate_check. split; [reflexivity|]. split; intros H.
+  - apply existsb_text_In in H. rewrite H. reflexivity.
+  - apply existsb_text_notIn in H. rewrite H. reflexivity.
+Qed.
+
+Definition has_list_files (a : list text) : Prop := In (txt "-l") a \/ In (txt "--files-with-diff") a.
+Definition has_emit (a : list text) : Prop := exists x, In x a /\ starts_with (txt "--emit") x = true.
+
+Lemma list_files_existsb a :
+  existsb (fun x => eqb_text x (txt "-l") || eqb_text x (txt "--files-with-diff")) a = true <-> has_list_files a.
+Proof.
+  unfold has_list_files. rewrite existsb_exists. split.
+  - intros (x & Hx & E). apply orb_true_iff in E. destruct E as [E|E]; apply eqb_text_spec in E; subst; auto.
+  - intros [H|H]; [exists (txt "-l")|exists (txt "--files-with-diff")]; (split; [exact H|]);
+      rewrite eqb_text_refl; [reflexivity|apply orb_true_r].
+Qed.
+
+Lemma message_format_short_lemma a :
+  (has_list_files a -> convert_message_format (txt "short") a = Some a) /\
+  (~ has_list_files a -> convert_message_format (txt "short") a = Some (a ++ [txt "-l"])).
+Proof.
+  unfold convert_message_format. rewrite eqb_text_refl.
+  destruct (existsb (fun x => eqb_text x (txt "-l") || eqb_text x (txt "--files-with-diff")) a) eqn:E.
+  - apply list_files_existsb in E. split; [reflexivity|contradiction].
+  - split; [|reflexivity]. intros H. apply list_files_existsb in H. congruence.
+Qed.
+
+Lemma message_format_json_lemma a :
+  (has_emit a \/ In (txt "--check") a -> convert_message_format (txt "json") a = None) /\
+  (~ has_emit a -> ~ In (txt "--check") a ->
+   convert_message_format (txt "json") a = Some (a ++ [txt "--emit"; txt "json"])).
+Proof.
+  unfold convert_message_format.
+  assert (E1 : eqb_text (txt "json") (txt "short") = false) by (vm_compute; reflexivity).
+  rewrite E1, eqb_text_refl.
+  destruct (existsb (starts_with (txt "--emit")) a) eqn:Ee.
+  - split; [reflexivity|]. intros Hn. exfalso. apply Hn. apply existsb_exists in Ee. exact Ee.
+  - destruct (existsb (fun x => eqb_text x (txt "--check")) a) eqn:Ec.
+    + split; [reflexivity|]. intros _ Hn. apply existsb_text_In in Ec. contradiction.
+    + split; [|reflexivity]. intros [He|Hc].
+      * unfold has_emit in He. rewrite <- existsb_exists in He. congruence.
+      * apply existsb_text_In in Hc. congruence.
+Qed.
+
+Lemma message_format_human_lemma a : convert_message_format (txt "human") a = Some a.
+Proof.
+  unfold convert_message_format.
+  assert (E1 : eqb_text (txt "human") (txt "short") = false) by (vm_compute; reflexivity).
+  assert (E2 : eqb_text (txt "human") (txt "json") = false) by (vm_compute; reflexivity).
+  rewrite E1, E2, eqb_text_refl. reflexivity.
+Qed.
+
+Lemma message_format_other_lemma mf a :
+  mf <> txt "short" -> mf <> txt "json" -> mf <> txt "human" -> convert_message_format mf a = None.
+Proof.
+  intros H1 H2 H3. unfold convert_message_format.
+  rewrite (eqb_text_neq _ _ H1), (eqb_text_neq _ _ H2), (eqb_text_neq _ _ H3). reflexivity.
+Qed.
+
+(* everything after -- is handed on verbatim, in order, before anything that cargo-fmt adds *)
+Lemma passthrough_lemma (o : opts) (a : list text) :
+  final_args o = Some a ->
+  exists extra, a = o_rustfmt_options o ++ extra /\
+    forall x, In x extra -> In x [txt "--check"; txt "-l"; txt "--emit"; txt "json"].
+Proof.
+  unfold final_args.
+  assert (Hc : exists e1, translate_check (o_check o) (o_rustfmt_options o) = o_rustfmt_options o ++ e1 /\
+                          forall x, In x e1 -> x = txt "--check").
+  { unfold translate_check. destruct (o_check o).
+    - destruct (existsb (fun x => eqb_text x (txt "--check")) (o_rustfmt_options o)).
+      + exists []. split; [rewrite app_nil_r; reflexivity|intros x []].
+      + exists [txt "--check"]. split; [reflexivity|]. intros x [<-|[]]. reflexivity.
+    - exists []. split; [rewrite app_nil_r; reflexivity|intros x []]. }
+  destruct Hc as (e1 & -> & He1).
+  destruct (o_message_format o) as [mf|].
+  - unfold convert_message_format.
+    destruct (eqb_text mf (txt "short")).
+    + destruct (existsb _ _); intros H; inversion H; subst.
+      * exists e1. split; [reflexivity|]. intros x Hx. rewrite (He1 x Hx). left. reflexivity.
+      * exists (e1 ++ [txt "-l"]). split; [rewrite app_assoc; reflexivity|].
+        intros x Hx. apply in_app_or in Hx. destruct Hx as [Hx|[<-|[]]]; [rewrite (He1 x Hx); left; reflexivity|].
+        right; left; reflexivity.
+    + destruct (eqb_text mf (txt "json")).
+      * destruct (existsb (starts_with (txt "--emit")) _); [discriminate|].
+        destruct (existsb _ _); [discriminate|]. intros H; inversion H; subst.
+        exists (e1 ++ [txt "--emit"; txt "json"]). split; [rewrite app_assoc; reflexivity|].
+        intros x Hx. apply in_app_or in Hx. destruct Hx as [Hx|[<-|[<-|[]]]].
+        -- rewrite (He1 x Hx). left. reflexivity.
+        -- right; right; left; reflexivity.
+        -- right; right; right; left; reflexivity.
+      * destruct (eqb_text mf (txt "human")); [|discriminate]. intros H; inversion H; subst.
+        exists e1. split; [reflexivity|]. intros x Hx. rewrite (He1 x Hx). left. reflexivity.
+  - intros H; inversion H; subst. exists e1. split; [reflexivity|].
+    intros x Hx. rewrite (He1 x Hx). left. reflexivity.
+Qed.
+
+(* ================================================================== *)
+(* 9. format_crate and execute *)
+Section Exec.
+Variable w : world.
+
+Lemma format_crate_err fuel v st a marg e :
+  get_targets w fuel st marg = Err e -> format_crate w fuel v st a marg = (Err e, []).
+Proof. intros H. unfold format_crate. rewrite H. reflexivity. Qed.
+
+Lemma format_crate_ok fuel v st a marg s :
+  get_targets w fuel st marg = Ok s -> format_crate w fuel v st a marg = run_rustfmt w s a v.
+Proof. intros H. unfold format_crate. rewrite H. reflexivity. Qed.
+
+Lemma execute_format_path fuel (o : opts) v a marg :
+  info_request o = false -> verbosity_of o = Some v -> final_args o = Some a -> manifest_arg w o = Some marg ->
+  execute w fuel o =
+  (handle_command_status (fst (format_crate w fuel v (strategy_from_opts o) a marg)),
+   snd (format_crate w fuel v (strategy_from_opts o) a marg)).
+Proof.
+  unfold info_request, verbosity_of, final_args, manifest_arg, execute. intros Hi Hv Ha Hm.
+  apply orb_false_iff in Hi. destruct Hi as [Hi1 Hi2]. rewrite Hv, Hi1, Hi2.
+  destruct (o_message_format o) as [mf|].
+  - rewrite Ha. destruct (o_manifest_path o) as [sp|].
+    + destruct (ends_with (txt "Cargo.toml") sp); [|discriminate]. inversion Hm; subst. cbn [negb].
+      destruct (format_crate w fuel v (strategy_from_opts o) a (Some (w_path_of w sp))); reflexivity.
+    + inversion Hm; subst. destruct (format_crate w fuel v (strategy_from_opts o) a None); reflexivity.
+  - inversion Ha; subst. destruct (o_manifest_path o) as [sp|].
+    + destruct (ends_with (txt "Cargo.toml") sp); [|discriminate]. inversion Hm; subst. cbn [negb].
+      destruct (format_crate w fuel v (strategy_from_opts o) _ (Some (w_path_of w sp))); reflexivity.
+    + inversion Hm; subst. destruct (format_crate w fuel v (strategy_from_opts o) _ None); reflexivity.
+Qed.
+
+Lemma execute_usage_error fuel (o : opts) :
+  info_request o = false ->
+  verbosity_of o = None \/ final_args o = None \/ manifest_arg w o = None ->
+  execute w fuel o = (FAILURE, []).
+Proof.
+  unfold info_request, verbosity_of, final_args, manifest_arg, execute. intros Hi H.
+  apply orb_false_iff in Hi. destruct Hi as [Hi1 Hi2].
+  destruct (match o_verbose o, o_quiet o with
+            | false, false => Some Normal | false, true => Some Quiet
+            | true, false => Some Verbose | true, true => None end) as [v|] eqn:Ev; [|reflexivity].
+  rewrite Hi1, Hi2.
+  destruct H as [H|[H|H]]; [discriminate| |].
+  - destruct (o_message_format o) as [mf|]; [rewrite H; reflexivity|discriminate].
+  - destruct (match o_message_format o with
+              | Some mf => convert_message_format mf (translate_check (o_check o) (o_rustfmt_options o))
+              | None => Some (translate_check (o_check o) (o_rustfmt_options o)) end) as [a|]; [|reflexivity].
+    destruct (o_manifest_path o) as [sp|]; [|discriminate].
+    destruct (ends_with (txt "Cargo.toml") sp); [discriminate|reflexivity].
+Qed.
+
+(* the whole formatting path in one statement *)
+Lemma execute_spec_lemma fuel (o : opts) v a marg :
+  info_request o = false -> verbosity_of o = Some v -> final_args o = Some a -> manifest_arg w o = Some marg ->
+  match get_targets w fuel (strategy_from_opts o) marg with
+  | Err _ => execute w fuel o = (FAILURE, [])
+  | Ok s => execute w fuel o = (exit_code_of (map (w_child w) (planned v s a)),
+                                upto_spawn_failure w (planned v s a))
+  end.
+Proof.
+  intros Hi Hv Ha Hm. rewrite (execute_format_path fuel o v a marg Hi Hv Ha Hm).
+  destruct (get_targets w fuel (strategy_from_opts o) marg) as [s|e] eqn:E.
+  - rewrite (format_crate_ok fuel v _ a marg s E).
+    destruct (run_rustfmt_spec_lemma w s a v) as [H1 H2]. rewrite H1, H2. reflexivity.
+  - rewrite (format_crate_err fuel v _ a marg e E). reflexivity.
+Qed.
+
+Lemma execute_exit_lemma fuel (o : opts) v a marg s :
+  info_request o = false -> verbosity_of o = Some v -> final_args o = Some a -> manifest_arg w o = Some marg ->
+  get_targets w fuel (strategy_from_opts o) marg = Ok s ->
+  (forall i, In i (planned v s a) -> w_child w i <> Signaled) ->
+  (fst (execute w fuel o) <> 0%Z <-> exists i, In i (snd (execute w fuel o)) /\ w_child w i <> Exited 0).
+Proof.
+  intros Hi Hv Ha Hm Hs Hns. pose proof (execute_spec_lemma fuel o v a marg Hi Hv Ha Hm) as H.
+  rewrite Hs in H. rewrite H. cbn [fst snd]. rewrite <- upto_failure.
+  rewrite exit_of_iff_nosig_lemma.
+  - split.
+    + intros (st & Hst & Hne). apply in_map_iff in Hst. destruct Hst as (i & <- & Hin). exists i. split; assumption.
+    + intros (i & Hin & Hne). exists (w_child w i). split; [apply in_map; exact Hin|exact Hne].
+  - intros Hin. apply in_map_iff in Hin. destruct Hin as (i & Hc & Hin). exact (Hns i Hin Hc).
+Qed.
+
+Lemma invocation_shape v s a i :
+  In i (planned v s a) ->
+  exists e files, In (e, files) (by_edition s) /\
+    i = MkInv (is_quiet v) (map AFile files ++ [AStr (txt "--edition"); AEdition e] ++ map AStr a).
+Proof.
+  unfold planned. intros H. apply in_map_iff in H. destruct H as ([e files] & <- & Hin).
+  exists e, files. split; [exact Hin|reflexivity].
+Qed.
+End Exec.
+
+(* ================================================================== *)
+(* 10. witness worlds and refutations *)
+Fixpoint lookup_meta (tbl : list (option path * metadata)) (m : option path) : option metadata :=
+  match tbl with
+  | [] => None
+  | (k, md) :: tbl' =>
+      if (match k, m with
+          | None, None => true
+          | Some a, Some b => a =? b
+          | _, _ => false
+          end) then Some md else lookup_meta tbl' m
+  end.
+
+(* The scratch workspace used to validate the model against the real binary.
+   files: 1 ext/util/Cargo.toml  2 ext/util/src/lib.rs  3 ext2/util/Cargo.toml  4 ext2/util/src/lib.rs
+          5 ws/Cargo.toml (virtual)  6 ws/a/Cargo.toml  8 ws/a/src/main.rs  9 ws/b/Cargo.toml  10 ws/b/src/main.rs
+          11 ws/c/Cargo.toml  12 ws/c/src/lib.rs  13 ws/shared/lib.rs
+          213 ws/a/../shared/lib.rs  313 ws/b/../shared/lib.rs  (both canonicalise to 13)
+   directories: 100 + the identifier of their Cargo.toml.   names: a 1, b 2, c 3, util 5, zzz 6, util2 7.
+   a (2015) and b (2021) share the file 13; a depends on util at ext/util, b on a package called util at ext2/util *)
+Definition x_pkg_a : pkg := MkPkg 1 6 [MkSrc 213 0 2015; MkSrc 8 1 2015] [MkDep 2 (Some 109); MkDep 5 (Some 101)].
+Definition x_pkg_b (depname : pkgname) : pkg :=
+  MkPkg 2 9 [MkSrc 313 0 2021; MkSrc 10 1 2021] [MkDep depname (Some 103); MkDep 9 None].
+Definition x_pkg_c : pkg := MkPkg 3 11 [MkSrc 12 0 2018] [].
+Definition x_pkg_u1 : pkg := MkPkg 5 1 [MkSrc 2 0 2018] [].
+Definition x_pkg_u2 (name : pkgname) : pkg := MkPkg name 3 [MkSrc 4 0 2021] [].
+Definition x_ws (depname : pkgname) : metadata := MkMeta 105 [x_pkg_a; x_pkg_b depname; x_pkg_c].
+Definition x_tbl (depname : pkgname) : list (option path * metadata) :=
+  [(None, x_ws depname); (Some 5, x_ws depname); (Some 6, x_ws depname); (Some 9, x_ws depname);
+   (Some 11, x_ws depname); (Some 1, MkMeta 101 [x_pkg_u1]); (Some 3, MkMeta 103 [x_pkg_u2 depname])].
+(* depname = 5: the second dependency is also called util; depname = 7: distinct names *)
+Definition x_world (depname : pkgname) (cwd : path) (child : invocation -> status) : world :=
+  MkWorld (lookup_meta (x_tbl depname))
+          (fun p => if (p =? 213) || (p =? 313) then 13 else p)
+          (fun p => existsb (N.eqb p) [1; 3; 5; 6; 9; 11])
+          (fun d => d - 100)
+          cwd
+          (fun _ => 5)
+          child.
+Definition x_ok : invocation -> status := fun _ => Exited 0.
+
+Lemma targets_spec_all_refuted_lemma :
+  exists (w : world) (fuel : nat) (marg : option path) (s : tset) (p : pkg) (st : src_target),
+    get_targets_gen w (get_targets_recursive w) fuel SAll marg = Ok s /\
+    (forall k, get_targets_gen w (get_targets_recursive w) (k + fuel) SAll marg = Ok s) /\
+    all_selected w marg p /\ In st (p_targets p) /\ ~ In (w_canon w (st_src st)) (tpaths s).
+Proof.
+  exists (x_world 5 105 x_ok), 5%nat, None,
+         [MkT 2 0 2018; MkT 8 1 2015; MkT 10 1 2021; MkT 12 0 2018; MkT 13 0 2015],
+         (x_pkg_u2 5), (MkSrc 4 0 2021).
+  assert (H5 : get_targets_gen (x_world 5 105 x_ok) (get_targets_recursive (x_world 5 105 x_ok)) 5 SAll None
+               = Ok [MkT 2 0 2018; MkT 8 1 2015; MkT 10 1 2021; MkT 12 0 2018; MkT 13 0 2015])
+    by (vm_compute; reflexivity).
+  split; [exact H5|]. split.
+  - intros k. unfold get_targets_gen in *. unfold get_targets_recursive in *.
+    destruct (rec_gen (x_world 5 105 x_ok) vkey_name 5 None ([], [])) as [x|e] eqn:E; [|discriminate].
+    rewrite (rec_gen_more_fuel _ _ 5 k None _ _ E); [exact H5|discriminate].
+  - split; [|split; [left; reflexivity|vm_compute; intros [H|[H|[H|[H|[H|[]]]]]]; discriminate]].
+    exists (Some 3), (MkMeta 103 [x_pkg_u2 5]). split; [|split; [reflexivity|left; reflexivity]].
+    apply (Reach_step (x_world 5 105 x_ok) None None 5 3 (Reach_root _ _)).
+    exists (x_ws 5), (x_pkg_b 5), (MkDep 5 (Some 103)), 103.
+    repeat split; try reflexivity.
+    + right; left; reflexivity.
+    + left; reflexivity.
+    + intros q Hq. cbn in Hq. destruct Hq as [<-|[<-|[<-|[]]]]; discriminate.
+Qed.
+
+Definition x_opts_all_unknown : opts := MkOpts false false false [6] None None [] true false.
+
+Lemma unknown_package_with_all_refuted_lemma :
+  exists (w : world) (fuel : nat) (o : opts) (n : pkgname) (md : metadata),
+    o_format_all o = true /\ In n (o_packages o) /\ manifest_arg w o = Some None /\
+    w_meta w None = Some md /\ (forall p, In p (packages md) -> p_name p <> n) /\
+    fst (execute w fuel o) = 0%Z /\ snd (execute w fuel o) <> [].
+Proof.
+  exists (x_world 5 105 x_ok), 5%nat, x_opts_all_unknown, 6, (x_ws 5).
+  repeat split; try reflexivity.
+  - left; reflexivity.
+  - intros p Hp. cbn in Hp. destruct Hp as [<-|[<-|[<-|[]]]]; discriminate.
+  - vm_compute. discriminate.
+Qed.
+
+(* the file shared by a (2015) and b (2021) is formatted once, with a's edition *)
+Lemma edition_shared_file_refuted_lemma :
+  exists (w : world) (fuel : nat) (marg : option path) (md : metadata) (s : tset) (p : pkg) (st : src_target),
+    get_targets w fuel SRoot marg = Ok s /\ w_meta w marg = Some md /\
+    root_selected w marg md p /\ In st (p_targets p) /\
+    forall t, In t s -> t_path t = w_canon w (st_src st) -> t_edition t <> st_edition st.
+Proof.
+  exists (x_world 5 105 x_ok), 5%nat, None, (x_ws 5),
+         [MkT 8 1 2015; MkT 10 1 2021; MkT 12 0 2018; MkT 13 0 2015], (x_pkg_b 5), (MkSrc 313 0 2021).
+  split; [vm_compute; reflexivity|]. split; [reflexivity|]. split; [|split; [left; reflexivity|]].
+  - split; [right; left; reflexivity|]. right; left. reflexivity.
+  - intros t Ht Hp. cbn in Ht. destruct Ht as [<-|[<-|[<-|[<-|[]]]]]; cbn in Hp; discriminate.
+Qed.
+
+(* cargo fmt run in the (virtual) workspace root formats every member; naming the same manifest with
+   --manifest-path finds no target: main.rs:370 compares the root DIRECTORY with the manifest FILE *)
+Lemma root_manifest_path_refuted_lemma :
+  exists (w : world) (fuel : nat) (md : metadata) (s : tset),
+    w_meta w None = Some md /\ w_meta w (Some (w_toml_in w (w_cwd w))) = Some md /\
+    get_targets w fuel SRoot None = Ok s /\
+    get_targets w fuel SRoot (Some (w_toml_in w (w_cwd w))) = Err ENoTargets.
+Proof.
+  exists (x_world 5 105 x_ok), 5%nat, (x_ws 5), [MkT 8 1 2015; MkT 10 1 2021; MkT 12 0 2018; MkT 13 0 2015].
+  repeat split; vm_compute; reflexivity.
+Qed.
+
+(* ================================================================== *)
+(* 11. the remaining statements of Props.v *)
+Lemma edition_of_target_lemma (l : list target) (t : target) :
+  In t (kinsert_all t_path l []) <->
+  exists l1 l2, l = l1 ++ t :: l2 /\ ~ In (t_path t) (map t_path l1).
+Proof.
+  rewrite (kinsert_all_In t_path l [] t (tsorted_nil)). cbn [map In]. split.
+  - intros [[]|(_ & H)]. exact H.
+  - intros H. right. split; [intros []|exact H].
+Qed.
+
+Lemma invocations_spec_lemma (w : world) (s : tset) (args : list text) (v : verbosity) :
+  handle_command_status (fst (run_rustfmt w s args v)) = exit_code_of (map (w_child w) (planned v s args)) /\
+  snd (run_rustfmt w s args v) = upto_spawn_failure w (planned v s args) /\
+  (forall i, In i (planned v s args) ->
+     exists e files, In (e, files) (by_edition s) /\
+       i = MkInv (is_quiet v) (map AFile files ++ [AStr (txt "--edition"); AEdition e] ++ map AStr args)) /\
+  ((forall i, In i (planned v s args) -> w_child w i <> SpawnFailed) ->
+   snd (run_rustfmt w s args v) = planned v s args).
+Proof.
+  destruct (run_rustfmt_spec_lemma w s args v) as [H1 H2].
+  split; [exact H1|]. split; [exact H2|]. split; [intros i; apply invocation_shape|].
+  intros H. rewrite H2. apply upto_all. exact H.
+Qed.
+
+Lemma targets_spec_root_lemma (w : world) (fuel : nat) (marg : option path) (s : tset) :
+  get_targets w fuel SRoot marg = Ok s ->
+  exists md, w_meta w marg = Some md /\ selects w (root_selected w marg md) s /\
+             s = add_targets w (flat_map p_targets (root_packages w marg md)) [].
+Proof. exact (targets_root_lemma w (get_targets_all w) fuel marg s). Qed.
+
+Lemma targets_spec_some_lemma (w : world) (fuel : nat) (hitlist : list pkgname) (marg : option path) (s : tset) :
+  get_targets w fuel (SSome hitlist) marg = Ok s ->
+  exists md, w_meta w marg = Some md /\ selects w (some_selected hitlist md) s /\
+             (forall n, In n hitlist -> exists p, In p (packages md) /\ p_name p = n) /\
+             s = add_targets w (flat_map p_targets
+                   (hit_list (packages md) (fold_left (fun h n => nset_insert n h) hitlist []))) [].
+Proof. exact (targets_some_lemma w (get_targets_all w) fuel hitlist marg s). Qed.
+
+Lemma unknown_package_before_format_lemma
+      (w : world) (fuel : nat) (v : verbosity) (a : list text) (hitlist : list pkgname) (marg : option path)
+      (md : metadata) (n : pkgname) :
+  w_meta w marg = Some md -> In n hitlist -> (forall p, In p (packages md) -> p_name p <> n) ->
+  exists n', get_targets w fuel (SSome hitlist) marg = Err (ENotMember n') /\
+             In n' hitlist /\ (forall p, In p (packages md) -> p_name p <> n') /\ n' <= n /\
+             format_crate w fuel v (SSome hitlist) a marg = (Err (ENotMember n'), []).
+Proof.
+  intros Hm Hn Hun.
+  destruct (unknown_package_lemma w (get_targets_all w) fuel hitlist marg md n Hm Hn Hun) as (n' & H1 & H2 & H3 & H4).
+  exists n'. repeat split; try assumption. apply format_crate_err. exact H1.
+Qed.
+
+Lemma metadata_failure_before_format_lemma
+      (w : world) (fuel : nat) (v : verbosity) (st : strategy) (a : list text) (marg : option path) :
+  w_meta w marg = None -> (0 < fuel)%nat ->
+  format_crate w fuel v st a marg = (Err EMetadata, []).
+Proof. intros Hm Hf. apply format_crate_err. apply metadata_failure_lemma; assumption. Qed.
